@@ -517,7 +517,9 @@ func signerLosesPowerRun(env *Env, seed uint64) {
 				OpAmount: sdkmath.NewIntWithDecimal(pw, int(c.Cfg.Assets[0].Decimals)), LzNonce: nonce, TxHash: common.BytesToHash(detBytes(seed, "sl", int(nonce)))})
 		})
 	}
-	variant := rng.Intn(4)
+	// the way the signer loses its power cycles with the run index (every variant within any four
+	// consecutive runs); the other choices of the run stay random
+	variant := int(seed % 4)
 	var verr error
 	switch variant {
 	case 0:
